@@ -115,6 +115,8 @@ class TraceFn:
             return {"sum_pos": float(np.sum(pos)), "dir_int": int(rec["dir"]), "first": pos[0]}
         if self.kind == "energy":
             return {"hamiltonian": rec["h"], "mom": mom}
+        if self.kind == "default":  # what HamiltonianMonteCarlo traces when no trace_funcs argument is given
+            return {"pos": pos, "hamiltonian": rec["h"]}
         if self.kind == "odd_keys":
             return {"x[0]": pos[0], "x0": 2.0 * pos[0], "a/b": -pos[0], "ab": 3.0 * pos[0]}
         return {"sign_pos": np.sign(pos).astype(np.int64)}
@@ -292,8 +294,11 @@ def build(cfg: dict, logdir: str):
             inits.append(pos)
         else:
             raise ValueError(init_kind)
-    trace_funcs = [TraceFn(k, plan, system) for k in cfg.get("trace", ["pos"])]
-    kw["trace_funcs"] = trace_funcs
+    if cfg.get("trace") == "default" and cfg.get("front_end", "hmc") == "hmc":
+        trace_funcs = [TraceFn("default", plan, system)]  # oracle side only: the argument is omitted
+    else:
+        trace_funcs = [TraceFn(k, plan, system) for k in (cfg.get("trace", ["pos"]) if cfg.get("trace") != "default" else ["pos"])]
+        kw["trace_funcs"] = trace_funcs
     adapters = []
     for a in cfg.get("adapters", []):
         if a == "step":
@@ -394,7 +399,7 @@ def stage_plan(cfg: dict, kw: dict):
             stager = mici.stagers.WarmUpStager()
         else:
             stager = mici.stagers.WindowedWarmUpStager()
-    return stager.stages(cfg.get("n_warm", 0), cfg.get("n_main", 5), adapters, kw.get("trace_funcs"),
+    return stager.stages(cfg.get("n_warm", 0), cfg.get("n_main", 5), adapters, kw.get("trace_funcs", ("default-trace",)),
                          trace_warm_up=kw.get("trace_warm_up", False))
 
 
